@@ -128,17 +128,15 @@ RequiredParams(a, t) ==
 \* ---- general models: $MODEL declares the compartments, comps = << [name, defdose, defobs, nodose], ... >>
 \* default observation compartment: DEFOBSERVATION, else the compartment named CENTRAL, else the first;
 \* default dose compartment: DEFDOSE, else the compartment named DEPOT, else the first that is not NODOSE
-FirstWhere(comps, P(_)) == IF \E i \in 1..Len(comps) : P(comps[i])
-                           THEN CHOOSE i \in 1..Len(comps) : P(comps[i]) /\ \A j \in 1..(i - 1) : ~P(comps[j])
-                           ELSE 0
+FirstIx(S) == IF S = {} THEN 0 ELSE CHOOSE i \in S : \A j \in S : i <= j
 ModelDefObs(comps) ==
-    LET a == FirstWhere(comps, LAMBDA c : c.defobs)
-        b == FirstWhere(comps, LAMBDA c : c.name = "CENTRAL")
+    LET a == FirstIx({i \in 1..Len(comps) : comps[i].defobs})
+        b == FirstIx({i \in 1..Len(comps) : comps[i].name = "CENTRAL"})
     IN IF a # 0 THEN a ELSE IF b # 0 THEN b ELSE 1
 ModelDefDose(comps) ==
-    LET a == FirstWhere(comps, LAMBDA c : c.defdose)
-        b == FirstWhere(comps, LAMBDA c : c.name = "DEPOT")
-        c == FirstWhere(comps, LAMBDA x : ~x.nodose)
+    LET a == FirstIx({i \in 1..Len(comps) : comps[i].defdose})
+        b == FirstIx({i \in 1..Len(comps) : comps[i].name = "DEPOT"})
+        c == FirstIx({i \in 1..Len(comps) : ~comps[i].nodose})
     IN IF a # 0 THEN a ELSE IF b # 0 THEN b ELSE IF c # 0 THEN c ELSE 1
 
 \* ADVAN5 / ADVAN7 (general linear): the rate constant from compartment i to j is the $PK variable  Kij  or  KiTj ;
